@@ -7,6 +7,7 @@ import (
 	"go/types"
 
 	"verif/internal/flow"
+	"verif/internal/load"
 )
 
 // ---------------------------------------------------------------------------------------
@@ -28,7 +29,45 @@ func c08Wrap(v *c08env) {
 		return o
 	}
 	subjects := 0
-	if f := fn(c, c08rs, "circuitBreakerWrapper", "Wrap"); f != nil {
+	// the wrapper: the method Wrap (name fixed by the exported Wrapper interface) of the type of
+	// pkg/resilience that embeds the library breaker — whatever that unexported type is called
+	wrapName := "circuitBreakerWrapper"
+	wraps := funcsByRole(c, c08rs, func(g *flow.Func, fd *ast.FuncDecl) bool {
+		if fd.Name.Name != "Wrap" || fd.Recv == nil || len(fd.Recv.List) != 1 {
+			return false
+		}
+		t := g.Info.TypeOf(fd.Recv.List[0].Type)
+		if p, ok := t.(*types.Pointer); ok {
+			t = p.Elem()
+		}
+		st, ok := t.Underlying().(*types.Struct)
+		if !ok {
+			return false
+		}
+		for i := 0; i < st.NumFields(); i++ {
+			ft := st.Field(i).Type()
+			if p, ok := ft.(*types.Pointer); ok {
+				ft = p.Elem()
+			}
+			if types.Identical(ft, v.cbT) {
+				return true
+			}
+		}
+		return false
+	})
+	switch len(wraps) {
+	case 0:
+		c.Errorf("R-C08-6: anchor: no type of %s embedding the circuit breaker has a Wrap method", c08rs)
+	case 1:
+	default:
+		c.Errorf("R-C08-6: anchor: %d types of %s embedding the circuit breaker have a Wrap method", len(wraps), c08rs)
+	}
+	if len(wraps) == 1 {
+		f := wraps[0]
+		c.Count("functions_analysed", 1)
+		if fd, ok := f.Node.(*ast.FuncDecl); ok {
+			wrapName = load.RecvName(fd.Recv.List[0].Type)
+		}
 		var lit *ast.FuncLit
 		ast.Inspect(f.Body, func(n ast.Node) bool {
 			if rs, ok := n.(*ast.ReturnStmt); ok && lit == nil && len(rs.Results) == 1 {
@@ -69,7 +108,47 @@ func c08Wrap(v *c08env) {
 			c.Errorf("R-C08-6: anchor: circuitBreakerWrapper.Wrap does not return a function literal over its handler parameter")
 		case sentinel != nil:
 			subjects++
-			c08oneRecord(v, f.Lit(lit), fname(c08rs, "circuitBreakerWrapper", "Wrap")+"$closure", handler, sentinel)
+			// "extract method": a closure that only hands ctx and the handler on to a
+			// same-package function is analysed in that function
+			subj, outer, h := f.Lit(lit), ast.Node(f.Body), handler
+			cons := fname(c08rs, wrapName, "Wrap") + "$closure"
+			for depth := 0; depth < 2 && len(subj.Body.List) == 1; depth++ {
+				rs, ok := subj.Body.List[0].(*ast.ReturnStmt)
+				if !ok || len(rs.Results) != 1 {
+					break
+				}
+				call, ok := ast.Unparen(rs.Results[0]).(*ast.CallExpr)
+				if !ok {
+					break
+				}
+				fo, ok := f.Callee(call).(*types.Func)
+				if !ok || fo.Pkg() != f.Pkg.Types {
+					break
+				}
+				gd := declOf(f.Pkg, fo)
+				if gd == nil || gd.Type.Params == nil {
+					break
+				}
+				var hp types.Object
+				idx := 0
+				for _, fl := range gd.Type.Params.List {
+					for _, n := range fl.Names {
+						if idx < len(call.Args) {
+							if aid, ok := ast.Unparen(call.Args[idx]).(*ast.Ident); ok && c08obj(f, aid) == h {
+								hp = f.Info.Defs[n]
+							}
+						}
+						idx++
+					}
+				}
+				if hp == nil {
+					break
+				}
+				subj = flow.NewFunc(f.Pkg, gd)
+				outer, h = gd.Body, hp
+				cons = fname(c08rs, wrapName, "Wrap") + "$" + fo.Name()
+			}
+			c08oneRecord(v, subj, outer, cons, h, sentinel)
 		}
 	}
 	if f := fnOpt(c, c08cb, "CircuitBreaker", "Execute"); f != nil {
@@ -88,18 +167,55 @@ func c08Wrap(v *c08env) {
 		sentinel := lookupVar(c08cb, "ErrRejected")
 		if handler != nil && sentinel != nil {
 			subjects++
-			c08oneRecord(v, f, fname(c08cb, "CircuitBreaker", "Execute"), handler, sentinel)
+			c08oneRecord(v, f, f.Body, fname(c08cb, "CircuitBreaker", "Execute"), handler, sentinel)
 		}
 	}
 	c.RequireCount("R-C08-6", "call wrappers around the breaker", subjects, 1)
 }
 
-func c08oneRecord(v *c08env, f *flow.Func, cons string, handler, sentinel types.Object) {
+// c08via resolves a callee through single-assignment locals: a method value
+// (record := w.RecordResult; record(..)), a function value (h := handler; h(ctx)).
+func c08via(f *flow.Func, defs c08defs, o types.Object) types.Object {
+	for i := 0; i < 3; i++ {
+		vr, ok := o.(*types.Var)
+		if !ok || vr.IsField() {
+			return o
+		}
+		ds := defs[vr]
+		if len(ds) != 1 || ds[0] == nil {
+			return o
+		}
+		switch d := ast.Unparen(ds[0]).(type) {
+		case *ast.SelectorExpr:
+			if s := f.Info.Selections[d]; s != nil {
+				if s.Kind() == types.MethodVal {
+					return s.Obj()
+				}
+				return o
+			}
+			if u := f.Info.Uses[d.Sel]; u != nil {
+				o = u
+				continue
+			}
+		case *ast.Ident:
+			if u := f.Info.Uses[d]; u != nil {
+				o = u
+				continue
+			}
+		}
+		return o
+	}
+	return o
+}
+
+func c08oneRecord(v *c08env, f *flow.Func, outer ast.Node, cons string, handler, sentinel types.Object) {
 	c := v.c
 	body := f.Body
+	defs := c08collectDefs(f, outer)
+	via := func(o types.Object) types.Object { return c08via(f, defs, o) }
 	var acqs, recs, hcalls []*ast.CallExpr
 	for _, call := range calls(body, true) {
-		switch f.Callee(call) {
+		switch via(f.Callee(call)) {
 		case types.Object(v.meth["AcquirePermission"]):
 			acqs = append(acqs, call)
 		case types.Object(v.meth["RecordResult"]):
@@ -132,8 +248,43 @@ func c08oneRecord(v *c08env, f *flow.Func, cons string, handler, sentinel types.
 		return
 	}
 	if len(recs) == 0 {
+		// recorded through a same-package helper? then the count/argument analysis below does
+		// not apply as written: undecided, not violated
+		for _, g := range reach(f, 3)[1:] {
+			for _, call := range calls(g.Body, true) {
+				if g.Callee(call) == types.Object(v.meth["RecordResult"]) {
+					c.Undecide("R-C08-6", cons+"|admitted call records exactly once", at, "RecordResult is called from the helper "+g.Name+", not from the wrapper itself")
+					return
+				}
+			}
+		}
 		c.Violate("R-C08-6", cons+"|admitted call records exactly once", at, "no result is ever recorded: the breaker can never open")
 		return
+	}
+	// a record inside a function literal that is not deferred runs when that closure is called,
+	// which the engine does not follow
+	var litsND []*ast.FuncLit
+	deferred := map[*ast.FuncLit]bool{}
+	ast.Inspect(body, func(n ast.Node) bool {
+		switch x := n.(type) {
+		case *ast.DeferStmt:
+			if l, ok := ast.Unparen(x.Call.Fun).(*ast.FuncLit); ok {
+				deferred[l] = true
+			}
+		case *ast.FuncLit:
+			if !deferred[x] {
+				litsND = append(litsND, x)
+			}
+		}
+		return true
+	})
+	for _, l := range litsND {
+		for _, r := range recs {
+			if contains(l.Body, r) {
+				c.Undecide("R-C08-6", cons+"|admitted call records exactly once", pos(c, r), "RecordResult is called inside a function literal that is not a deferred call; when it runs is not followed")
+				return
+			}
+		}
 	}
 	// permitted / stateID variables
 	var permID, idID *ast.Ident
@@ -171,10 +322,10 @@ func c08oneRecord(v *c08env, f *flow.Func, cons string, handler, sentinel types.
 	res := analyze(c, f, flow.Config{
 		NoHavoc: true,
 		MayPanic: func(call *ast.CallExpr, callee types.Object) bool {
-			return callee == handler
+			return via(callee) == handler
 		},
 		OnCall: func(st *flow.State, call *ast.CallExpr, callee types.Object, deferred bool) {
-			switch callee {
+			switch via(callee) {
 			case types.Object(v.meth["AcquirePermission"]):
 				st.Set("ev:acq", flow.True)
 			case types.Object(v.meth["RecordResult"]):
@@ -213,15 +364,22 @@ func c08oneRecord(v *c08env, f *flow.Func, cons string, handler, sentinel types.
 		if ex.Return == nil {
 			return false
 		}
-		for _, r := range ex.Return.Results {
+		results := ex.Return.Results
+		if len(results) == 0 && f.Type.Results != nil {
+			for _, fl := range f.Type.Results.List {
+				for _, n := range fl.Names {
+					results = append(results, n)
+				}
+			}
+		}
+		for _, r := range results {
 			r = ast.Unparen(r)
-			tv, ok := f.Info.Types[r]
-			if !ok || !c08isErrorT(tv.Type) {
+			if !c08isErrorT(f.Info.TypeOf(r)) {
 				continue
 			}
 			switch x := r.(type) {
 			case *ast.Ident:
-				if f.Info.Uses[x] == sentinel {
+				if c08obj(f, x) == sentinel {
 					return true
 				}
 				if ex.State.Is("eq:"+f.Render(x)+"==@"+sentinel.Pkg().Path()+"."+sentinel.Name(), flow.True) {
@@ -377,70 +535,146 @@ func c08Proxy(v *c08env) {
 		}
 		return false
 	}
-	// subject: the invocation of the (wrapped) handler — a call through a local variable of
-	// function type returning error
+	bodies := reach(f, 3)
+	// subject: the invocation of the (wrapped) handler — a call through a local variable or
+	// parameter of function type returning error, in handle itself or (after "extract function")
+	// in a helper it reaches
+	isHandlerVar := func(o types.Object) bool {
+		vr, ok := o.(*types.Var)
+		if !ok || vr.IsField() || vr.Pkg() == nil || vr.Parent() == vr.Pkg().Scope() {
+			return false
+		}
+		sig, ok := vr.Type().Underlying().(*types.Signature)
+		return ok && sig.Results().Len() == 1 && c08isErrorT(sig.Results().At(0).Type())
+	}
 	var invocations []*ast.CallExpr
-	var handlerVar types.Object
-	for _, call := range calls(f.Body, false) {
-		id, ok := ast.Unparen(call.Fun).(*ast.Ident)
-		if !ok {
-			continue
+	for _, g := range bodies {
+		for _, call := range calls(g.Body, false) {
+			if id, ok := ast.Unparen(call.Fun).(*ast.Ident); ok && isHandlerVar(f.Info.Uses[id]) {
+				invocations = append(invocations, call)
+			}
 		}
-		o, ok := f.Info.Uses[id].(*types.Var)
-		if !ok || o.IsField() || o.Parent() == o.Pkg().Scope() {
-			continue
+		if len(invocations) > 0 {
+			break // the outermost function that invokes a handler
 		}
-		sig, ok := o.Type().Underlying().(*types.Signature)
-		if !ok || sig.Results().Len() != 1 || !c08isErrorT(sig.Results().At(0).Type()) {
-			continue
-		}
-		invocations = append(invocations, call)
-		handlerVar = o
 	}
 	if !c.RequireCount("R-C08-7", "invocations of the wrapped handler in ServerPool.handle", len(invocations), 1) {
 		return
 	}
 	// tests of the error against the sentinel
 	var tests []ast.Expr
-	ast.Inspect(f.Body, func(n ast.Node) bool {
-		switch x := n.(type) {
-		case *ast.BinaryExpr:
-			if (x.Op == token.EQL || x.Op == token.NEQ) && (isSentinel(x.X) || isSentinel(x.Y)) {
-				tests = append(tests, x)
+	for _, g := range bodies {
+		ast.Inspect(g.Body, func(n ast.Node) bool {
+			switch x := n.(type) {
+			case *ast.BinaryExpr:
+				if (x.Op == token.EQL || x.Op == token.NEQ) && (isSentinel(x.X) || isSentinel(x.Y)) {
+					tests = append(tests, x)
+				}
+			case *ast.CallExpr:
+				if fo, ok := f.Callee(x).(*types.Func); ok && fo.FullName() == "errors.Is" && len(x.Args) == 2 && isSentinel(x.Args[1]) {
+					tests = append(tests, x)
+				}
 			}
-		case *ast.CallExpr:
-			if fo, ok := f.Callee(x).(*types.Func); ok && fo.FullName() == "errors.Is" && len(x.Args) == 2 && isSentinel(x.Args[1]) {
-				tests = append(tests, x)
+			return true
+		})
+	}
+	// every rendering of `<pool>.circuitBreakerWrapper == nil`
+	cbNil := map[string]bool{}
+	for _, g := range bodies {
+		ast.Inspect(g.Body, func(n ast.Node) bool {
+			if e, ok := n.(ast.Expr); ok {
+				if fv, _ := c08sel(f, e); fv == cbField {
+					cbNil[f.NilKey(e)] = true
+				}
 			}
-		}
-		return true
-	})
-	var cbSel string
-	ast.Inspect(f.Body, func(n ast.Node) bool {
-		if e, ok := n.(ast.Expr); ok && cbSel == "" {
-			if fv, _ := c08sel(f, e); fv == cbField {
-				cbSel = f.NilKey(e)
-			}
-		}
-		return true
-	})
-	isCBWrap := func(e ast.Expr) bool {
-		call, ok := ast.Unparen(e).(*ast.CallExpr)
-		if !ok || !ifaceMethodCall(f, call, c08rs, "Wrapper", "Wrap") {
+			return true
+		})
+	}
+	// the application of the breaker wrapper: <pool>.circuitBreakerWrapper.Wrap(h) whose result
+	// is kept (assigned or returned), with h a handler variable
+	isCBWrap := func(call *ast.CallExpr) bool {
+		if !ifaceMethodCall(f, call, c08rs, "Wrapper", "Wrap") || len(call.Args) != 1 {
 			return false
 		}
 		sel := ast.Unparen(call.Fun).(*ast.SelectorExpr)
 		fv, _ := c08sel(f, sel.X)
-		if fv != cbField || len(call.Args) != 1 {
+		if fv != cbField {
 			return false
 		}
 		id, ok := ast.Unparen(call.Args[0]).(*ast.Ident)
-		return ok && f.Info.Uses[id] == handlerVar
+		return ok && isHandlerVar(f.Info.Uses[id])
+	}
+	// where the wrapped value goes: it must be assigned to a handler variable that is later
+	// invoked or returned, or be returned directly (checked syntactically per function; the
+	// engine then follows the order of events across the helpers)
+	kept := map[*ast.CallExpr]bool{}
+	for _, g := range bodies {
+		pm := parentMap(g.Body)
+		for _, call := range calls(g.Body, false) {
+			if !isCBWrap(call) {
+				continue
+			}
+			var p ast.Node = pm[call]
+			for {
+				if pe, ok := p.(*ast.ParenExpr); ok {
+					p = pm[pe]
+					continue
+				}
+				break
+			}
+			switch x := p.(type) {
+			case *ast.ReturnStmt:
+				kept[call] = true
+			case *ast.AssignStmt:
+				for i, r := range x.Rhs {
+					if ast.Unparen(r) != ast.Expr(call) || i >= len(x.Lhs) {
+						continue
+					}
+					id, ok := ast.Unparen(x.Lhs[i]).(*ast.Ident)
+					if !ok {
+						continue
+					}
+					o := c08obj(f, id)
+					used := false
+					ast.Inspect(g.Body, func(n ast.Node) bool {
+						switch y := n.(type) {
+						case *ast.ReturnStmt:
+							if y.Pos() > x.Pos() {
+								if len(y.Results) == 0 && g.Type.Results != nil {
+									for _, fl := range g.Type.Results.List {
+										for _, nm := range fl.Names {
+											used = used || f.Info.Defs[nm] == o
+										}
+									}
+								}
+								for _, rr := range y.Results {
+									if rid, ok := ast.Unparen(rr).(*ast.Ident); ok && c08obj(f, rid) == o {
+										used = true
+									}
+								}
+							}
+						case *ast.CallExpr:
+							if cid, ok := ast.Unparen(y.Fun).(*ast.Ident); ok && c08obj(f, cid) == o && y.Pos() > x.Pos() {
+								used = true
+							}
+						}
+						return true
+					})
+					kept[call] = used
+				}
+			}
+		}
+	}
+	// a handler variable of the invoking function that is overwritten with something which does
+	// not contain the previous handler loses the wrapper
+	invFn := map[types.Object]bool{}
+	for _, inv := range invocations {
+		invFn[f.Info.Uses[ast.Unparen(inv.Fun).(*ast.Ident)]] = true
 	}
 	usesHandler := func(e ast.Expr) bool {
 		found := false
 		ast.Inspect(e, func(n ast.Node) bool {
-			if id, ok := n.(*ast.Ident); ok && f.Info.Uses[id] == handlerVar {
+			if id, ok := n.(*ast.Ident); ok && isHandlerVar(f.Info.Uses[id]) {
 				found = true
 			}
 			return true
@@ -449,6 +683,7 @@ func c08Proxy(v *c08env) {
 	}
 	res := analyze(c, f, flow.Config{
 		NoHavoc: true,
+		Inline:  inlineSamePkg(f),
 		OnNode: func(st *flow.State, n ast.Node) {
 			as, ok := n.(*ast.AssignStmt)
 			if !ok || len(as.Lhs) != len(as.Rhs) {
@@ -456,20 +691,18 @@ func c08Proxy(v *c08env) {
 			}
 			for i, l := range as.Lhs {
 				id, ok := ast.Unparen(l).(*ast.Ident)
-				if !ok || c08obj(f, id) != handlerVar {
+				if !ok || !invFn[c08obj(f, id)] {
 					continue
 				}
-				switch {
-				case isCBWrap(as.Rhs[i]):
-					st.Set("ev:cbWrapped", flow.True)
-				case usesHandler(as.Rhs[i]):
-					// another wrapper around the same handler keeps the breaker inside
-				default:
+				if !usesHandler(as.Rhs[i]) {
 					st.Set("ev:cbWrapped", flow.False)
 				}
 			}
 		},
 		OnCall: func(st *flow.State, call *ast.CallExpr, callee types.Object, deferred bool) {
+			if isCBWrap(call) && kept[call] {
+				st.Set("ev:cbWrapped", flow.True)
+			}
 			if callee == failFn && len(call.Args) == 2 {
 				if cv := c08constOf(f, call.Args[1]); cv != nil && cv.ExactString() == "503" {
 					st.Set("ev:fail503", flow.True)
@@ -490,7 +723,11 @@ func c08Proxy(v *c08env) {
 	for _, inv := range invocations {
 		for _, st := range res.At[inv] {
 			vd.seen("wrap")
-			if cbSel != "" && st.Is(cbSel, flow.True) {
+			noBreaker := false
+			for k := range cbNil {
+				noBreaker = noBreaker || st.Is(k, flow.True)
+			}
+			if noBreaker {
 				continue // no breaker configured
 			}
 			if !st.Is("ev:cbWrapped", flow.True) {
@@ -524,11 +761,11 @@ func c08Proxy(v *c08env) {
 	}
 	want := resConst.Val()
 	for _, ex := range res.Exits {
-		if ex.Kind != flow.ExitReturn || ex.Return == nil || len(ex.Return.Results) != 1 {
+		if ex.Kind != flow.ExitReturn || ex.Ret() == nil || len(ex.Ret().Results) != 1 {
 			continue
 		}
 		st := ex.State
-		ret := c08constOf(f, ex.Return.Results[0])
+		ret := c08constOf(f, ex.Ret().Results[0])
 		isShortRes := ret != nil && constant.Compare(ret, token.EQL, want)
 		if short(st) == flow.True {
 			vd.seen("map")
